@@ -140,6 +140,17 @@ package taskfile
 // depend on the path it was reached by - the environment and the file's own variables, nothing else)
 //@   site (*Vars).Merge#0 requires arg0 == inclEnv && arg1 == vertex.Taskfile.Vars                              [C10,C09]
 
+// ---- C20: content from the network enters the program at ONE place --------------------------------------------
+// Requests are made, and repositories cloned, only inside the remote nodes and the existence probe; a remote
+// node is only ever read by readRemoteNodeContent (checksum, prompt, cache) or by its own Read wrapper; the
+// generic reader hands only local nodes to Node.Read. Fetching or reading remote content anywhere else - a
+// prefetch, a retry helper, a fast path - fails here, in whatever function it is put.
+//@ callers (*Client).Do (*Client).Get (*Client).Head (*Client).Post http.Get http.Head http.Post git.Clone git.PlainClone git.CloneContext : taskfile.RemoteExists taskfile.(*HTTPNode).ReadContext taskfile.(*GitNode).ReadContext tmp.*   [C20]
+//@ callers (RemoteNode).ReadContext (*HTTPNode).ReadContext (*GitNode).ReadContext : taskfile.(*Reader).readRemoteNodeContent taskfile.(*HTTPNode).Read taskfile.(*GitNode).Read   [C20]
+//@ callers (*Reader).readRemoteNodeContent : taskfile.(*Reader).readNodeContent   [C20]
+//@ func (*Reader).readNodeContent
+//@   site (Node).Read#0 requires !isRemote                                                                     [C20]
+
 // ---- C20: looking for the remote file honours the caller's deadline (--timeout): every request is made with
 // the context that was passed in, so a server that accepts the connection and then stalls cannot hold Task up
 //@ func RemoteExists
